@@ -64,7 +64,11 @@ def reply_profile(F, body, summaries):
             reply_blocks.add(blk.i)
         tgt = t.callee.path
         if tgt in summaries:
-            summ_blocks[blk.i] = place_key(t.dest)
+            if isinstance(summaries[tgt], tuple) and summaries[tgt][0] == 'const':
+                if summaries[tgt][1] == 1:
+                    reply_blocks.add(blk.i)      # helper that sends exactly one reply on every path
+            else:
+                summ_blocks[blk.i] = place_key(t.dest)
     roots = set(summ_blocks.values())
 
     def block_effect(b, facts):
@@ -117,11 +121,32 @@ def run(F, chk):
     for h in hs:
         # helper summaries: bin functions called from the handler that take a WebSocket and return Result
         summaries = {}
+        const_helpers = {}
         for blk in h.calls():
             tgt = F.get(blk.term.callee.path)
             if tgt is not None and tgt.crate == 'bin' and any('WebSocket<' in t for t in tgt.arg_types()) and tgt.ret_type().startswith('std::result::Result<'):
                 summaries[tgt.path] = tgt
+            elif tgt is not None and tgt.crate == 'bin' and tgt.kind != 'closure' and any('WebSocket<' in t for t in tgt.arg_types()):
+                const_helpers[tgt.path] = tgt
+        helper_reply_sites = 0
+        # helpers that do not return a Result (a command arm moved into its own function): same number of replies on every path
+        for p, hb in const_helpers.items():
+            R1.fn(p)
+            ex, res, nrep, _ = reply_profile(F, hb, {})
+            R1.paths += ex.n_states
+            helper_reply_sites += nrep
+            ns = sorted(set(n for (rb, st, n, k) in res))
+            if len(ns) == 1 and ns[0] in (0, 1):
+                summaries[p] = ('const', ns[0])
+                R1.ok(sample={'helper': p, 'return_states': len(res), 'summary': 'exactly %d reply on every path' % ns[0]})
+            else:
+                rb, st, n, k = [x for x in res if x[2] != 1][0] if res else (None, None, None, None)
+                R1.violation(('helper-summary', p, 'replies%s' % ns), 'helper %s sends %s text replies depending on the path (expected exactly one on every path)' % (p, ns),
+                             where=hb.loc(None), witness={'block_path': ex.witness(rb, ex.out_entry.get((rb, st), st))[-40:] if rb is not None else []})
+                summaries[p] = ('const', 1)
         for p, hb in summaries.items():
+            if isinstance(hb, tuple):
+                continue
             R1.fn(p)
             ex, res, nrep, _ = reply_profile(F, hb, {})
             R1.paths += ex.n_states
@@ -136,7 +161,7 @@ def run(F, chk):
         ex, res, nrep, cfg = reply_profile(F, h, summaries)
         R1.paths += ex.n_states
         R1.sites += nrep
-        R1.floor('text reply sites in the handler', nrep, 30)
+        R1.floor('text reply sites in the handler and its reply helpers', nrep + helper_reply_sites, 30)
         counts = {}
         for (rb, st, n, k) in res:
             counts[n] = counts.get(n, 0) + 1
@@ -149,6 +174,8 @@ def run(F, chk):
             R1.ok(n=counts[1], sample={'handler': h.path, 'return_states_with_exactly_one_reply': counts[1], 'reply_sites': nrep})
         R1.floor('return states of the handler', len(res), 1)
         cone = [h] + [F.get(p) for p in summaries] + cone_helpers(F, h)
+        seen_c = set()
+        cone = [c for c in cone if c is not None and not (c.path in seen_c or seen_c.add(c.path))]
         check_unwraps(F, cone, R2)
         check_close(F, h, R3)
 
@@ -320,6 +347,25 @@ def check_client_integers(F, R4):
     n = 0
     bodies = [b for b in F.order if b.crate == 'bin' and b.path.startswith('adlt_bin::remote::') and '::tests::' not in b.path]
     R4.floor('functions of the remote module', len(bodies), 20)
+    # helpers of the remote module whose return value derives from a client integer are sources themselves
+    # (`fn json_usize_or_default(v, key, default) -> Result<usize, ..>`): fixpoint over return-value provenance
+    helper_src = set()
+    changed = True
+    rounds = 0
+    while changed and rounds < 4:
+        changed = False
+        rounds += 1
+        for b in bodies:
+            if b.path in helper_src or b.kind == 'closure' or not re.search(r'\b(usize|u64|u32|i64|i32|u16)\b', b.ret_type()):
+                continue
+            pr0 = Prov(CFG(b))
+            toks = pr0.origins(0)
+            if any(CLIENT_INT.search(c) or c in helper_src for c in calls_in(toks)):
+                helper_src.add(b.path)
+                changed = True
+
+    def is_src(c):
+        return CLIENT_INT.search(c) is not None or c in helper_src
     for b in bodies:
         cfg = pr = E = None
         for blk in b.blocks:
@@ -349,7 +395,7 @@ def check_client_integers(F, R4):
             toks = set()
             for a in ops:
                 toks |= pr.operand(a, at=blk.i)
-            src = sorted(set(c.split('::')[-1] for c in calls_in(toks) if CLIENT_INT.search(c)))
+            src = sorted(set(c.split('::')[-1] for c in calls_in(toks) if is_src(c)))
             if not src:
                 continue
             exprs = [E.operand(a) for a in ops]
@@ -378,6 +424,8 @@ def check_client_integers(F, R4):
                             se = show(ex_)
                             if (c[1] in ('Lt', 'Le') and show(c[2]) == se) or (c[1] in ('Gt', 'Ge') and show(c[3]) == se):
                                 why = 'upper bound ' + show(c)[:80]
+            elif kind == 'index' and phi_index_ok(cfg, E, ops[0], blk.i):
+                why = 'every definition of the index local is loaded from a collection / found by position() or bounded where it is defined'
             else:
                 idx = exprs[0]
                 parts = [idx]
@@ -416,3 +464,50 @@ def fold_const(e):
     if isinstance(e, tuple) and e[0] == 'cast':
         return fold_const(e[1])
     return None
+
+
+def _bounded_here(cfg, E, e, at):
+    import guards
+    sp = show(e)
+    for (c, truth, D) in guards.known(cfg, E, at):
+        if truth is True and isinstance(c, tuple) and c[0] == 'bin':
+            if (c[1] in ('Lt', 'Le') and show(c[2]) == sp) or (c[1] in ('Gt', 'Ge') and show(c[3]) == sp):
+                other = show(c[3] if show(c[2]) == sp else c[2])
+                if 'len' in other or 'PtrMetadata' in other:
+                    return True
+    return False
+
+
+def phi_index_ok(cfg, E, op, at, depth=0):
+    """index operand that is a multi-definition local (`let idx = if filtered { table[i] } else { i }`): each definition must be
+    not client-valued (loaded from a collection, position()) or bounded by a dominating `x < len` where it is defined"""
+    from facts import Operand
+    if op.place is None or not op.place.is_local or depth > 3:
+        return False
+    l = op.place.l
+    sd = cfg.single_def(l)
+    if sd is not None and sd[1] != 'call' and sd[2].rv['k'] == 'use' and Operand(sd[2].rv['o']).place is not None and Operand(sd[2].rv['o']).place.is_local:
+        l = Operand(sd[2].rv['o']).place.l
+    ds = cfg.defs.get(l, [])
+    if len(ds) < 2:
+        return False
+    for (bi, si, d) in ds:
+        if si == 'call':
+            if re.search(r'(::index|Iterator::position)$', d.callee.path):
+                continue
+            return False
+        if d.rv['k'] != 'use':
+            return False
+        o = Operand(d.rv['o'])
+        if o.is_const:
+            continue
+        e = E.operand(o)
+        top = e
+        while isinstance(top, tuple) and top[0] in ('cast', 'ref'):
+            top = top[1]
+        if isinstance(top, tuple) and top[0] == 'proj' and isinstance(top[1], tuple) and top[1][0] == 'call' and re.search(r'(::index|Iterator::position)$', top[1][1]):
+            continue
+        if _bounded_here(cfg, E, e, bi):
+            continue
+        return False
+    return True
